@@ -15,6 +15,10 @@ from lib import common
 from llsym import build, codec, core, corpus
 
 OPTSETS = {
+    # option sets whose name starts with "cpp" select the C++ target (executed through the C mirror harness of llsym/cppunit.py)
+    "cpp14": dict(target_endianness="any", asserts=False, std="c++14", lang="cpp"),
+    "cpp17": dict(target_endianness="any", asserts=False, std="c++17", lang="cpp"),
+    "cpp14+little+asserts": dict(target_endianness="little", asserts=True, std="c++14", lang="cpp"),
     "default": dict(target_endianness="any", asserts=False),
     "little": dict(target_endianness="little", asserts=False),
     "any+asserts": dict(target_endianness="any", asserts=True),
@@ -40,7 +44,13 @@ def prepare(tier: str, root: pathlib.Path, optnames: typing.Sequence[str], metad
     gens = {}
     for on in optnames:
         out = root / ("gen_" + on.replace("+", "_"))
-        build.nnvg("c", out, ns, opts=OPTSETS[on], extra=["--allow-unregulated-fixed-port-id"])
+        o = {k: v for k, v in OPTSETS[on].items() if k != "lang"}
+        if OPTSETS[on].get("lang") == "cpp":
+            build.nnvg("cpp", out, ns, opts=o, extra=["--allow-unregulated-fixed-port-id"])
+            if "default" not in gens and not (root / "gen_default").exists():
+                build.nnvg("c", root / "gen_default", ns, opts=OPTSETS["default"], extra=["--allow-unregulated-fixed-port-id"])     # mirror structs
+        else:
+            build.nnvg("c", out, ns, opts=o, extra=["--allow-unregulated-fixed-port-id"])
         gens[on] = out
     feats = {n.split(".")[-1]: f for n, _, f in es}
     # services contribute their request and response types
@@ -61,9 +71,17 @@ def defines_for(on: str) -> typing.List[str]:
     return ["NUNAVUT_ASSERT(x)=assert(x)"] if OPTSETS[on]["asserts"] else []
 
 
+def is_cpp(on: str) -> bool:
+    return OPTSETS[on].get("lang") == "cpp"
+
+
 def unit_for(t: pydsdl.CompositeType, on: str, variant: str) -> codec.TypeUnit:
     root = _CTX["root"]
     work = root / f"work_{on.replace('+', '_')}_{variant}_{os.getpid()}"
+    if is_cpp(on):
+        from llsym import cppunit
+        # C++ is executed on -O1 IR only (the -O0 IR of the standard library is not inlined and far outside the budget)
+        return cppunit.CppTypeUnit(t, root / "gen_default", _CTX["gens"][on], work, "B", OPTSETS[on]["std"], defines_for(on))
     return codec.TypeUnit(t, _CTX["gens"][on], work, variant, defines_for(on))
 
 
@@ -77,7 +95,7 @@ def des_lengths(t: pydsdl.CompositeType, tier: str) -> typing.List[int]:
 
 
 def record(rep: common.Report, t: pydsdl.CompositeType, on: str, what: str, log: codec.QueryLog, tu: typing.Optional[codec.TypeUnit], wall: float,
-           sample_p: float = 0.05) -> None:
+           sample_p: float = 0.05, replayer: typing.Optional[typing.Callable] = None) -> None:
     key = f"{on}:{t.full_name}:{what}"
     slow = rep.extra.setdefault("slowest_runs", [])
     slow.append((round(wall, 1), key, log.paths))
@@ -96,7 +114,7 @@ def record(rep: common.Report, t: pydsdl.CompositeType, on: str, what: str, log:
         rep.unknown(key, u)
     for c in log.cex:
         c = dict(c)
-        ok, how = (False, "no unit") if tu is None else codec.replay(tu, c)
+        ok, how = (False, "no unit") if tu is None else (replayer(tu, c, on) if replayer is not None else codec.replay(tu, c))
         rd = common.replay_dir(rep.prop, dict(key=key, c=c))
         (rd / "counterexample.json").write_text(__import__("json").dumps(dict(type=t.full_name, options=on, run=what, **c, replay=how), indent=1, default=str))
         inp = c.get("inputs") or {}
